@@ -318,6 +318,19 @@ def run(F, rep, tier):
                 rep.viol('R3.5', evaluate + '|Chain|eval-order', 'operator/operand evaluation order in the chain loop changed (%d evaluate calls dominate give in the loop, %d before it)' % (len(loop_evals), len(pre)), g.loc())
         else:
             rep.viol('R3.4', evaluate + '|Chain|driver', 'the general branch of Expr::Chain is not new -> give in a loop -> finish (%d/%d/%d)' % (len(news), len(gives), len(fins)), eb.loc(min(regn)) if regn else None)
+        # the section-building branch: every operand evaluation in its loop is dominated by the evaluation of the operator to its left
+        sec_aggs = [bb for bb, s_ in eb.aggregates(regn) if s_[2][2] == 'core::Func' and s_[2][4] == 'ChainSection']
+        if sec_aggs:
+            loop_evals = [c for c in evals if eb.on_cycle(c.bb) and not any(eb.dominates(n_.bb, c.bb) for n_ in news) and any(c.bb in eb.dominators()[sa] or sa in eb.reachable_from(c.bb) for sa in sec_aggs)]
+            # operator evaluation = the one whose result is matched as Obj::Func and boxed into the section entry
+            sec_loop = [c for c in loop_evals if not any(eb.dominates(g_.bb, c.bb) for g_ in gives)]
+            doms = [c for c in sec_loop if all(eb.dominates(c.bb, o.bb) for o in sec_loop if o is not c)]
+            if len(sec_loop) >= 2 and len(doms) == 1:
+                opr = doms[0]
+                # it must be the operator: its result is switched on as Obj::Func (discriminant read) before any other evaluate
+                rep.ok('R3.5', 'Expr::Chain section loop', 'one evaluate call dominates the others in the loop (operator before its operand)')
+            elif len(sec_loop) >= 2:
+                rep.viol('R3.5', evaluate + '|Chain|section-eval-order', 'in the underscore-section branch no single evaluation dominates the rest of the loop: an operand can be evaluated before the operator to its left', sec_loop[0].loc())
         lens = [c for c in cs if c.target.endswith('::len')]
         if run2 and lens:
             r2 = run2[0]
@@ -391,8 +404,14 @@ def run(F, rep, tier):
         somes = [1 for _bb, s in b.aggregates() if s[2][2] == 'std::option::Option' and s[2][4] == 'Some']
         if ty == 'ComparisonOperator':
             dc = [c for c in b.calls if 'downcast_ref' in c.target]
-            if dc and 'ComparisonOperator' in str(dc[0].callee.get('g')) + dc[0].da:
-                rep.ok('R3.6', 'ComparisonOperator', 'chains with any ComparisonOperator (downcast)')
+            pushes = [c for c in b.calls if c.target.endswith('::push')]
+            some_bbs = [bb for bb, s_ in b.aggregates() if s_[2][2] == 'std::option::Option' and s_[2][4] == 'Some']
+            built = [bb for bb, s_ in b.aggregates() if s_[2][2] == 'ComparisonOperator']
+            if dc and 'ComparisonOperator' in str(dc[0].callee.get('g')) + dc[0].da and pushes and built and \
+                    all(any(b.dominates(p_.bb, sb) for p_ in pushes) for sb in some_bbs):
+                rep.ok('R3.6', 'ComparisonOperator', 'chains with any ComparisonOperator (downcast); every merged operator records the new link (push onto chained)')
+            elif dc and 'ComparisonOperator' in str(dc[0].callee.get('g')) + dc[0].da:
+                rep.viol('R3.6', 'try_chain|ComparisonOperator|link-not-recorded', 'a comparison chain can be merged without recording the new comparison (a Some result not dominated by a push onto `chained`): a later, different comparison then sees the wrong arity', b.loc(0))
             else:
                 rep.viol('R3.6', 'try_chain|ComparisonOperator', 'comparison operators no longer chain by downcasting the other operator to ComparisonOperator', b.loc(0))
         elif ty in want:
